@@ -43,9 +43,28 @@ def run(ctx):
             nxt = t['t']
             inloop = nxt is not None and bi in fn.reachable(nxt)
             if inloop:
-                # the loop must be able to exit on a 0 count and otherwise continue: the count feeds a switch / arithmetic
-                used = any(o for b in fn.B for dst, rv in b['s'] for o in (__import__('lib').rv_operands(rv)) if 'l' in o and any(x == ('call', bi) or (x[0] == 'field' and x[1] == ('call', bi)) for x in fn.origins(o)))
-                ctx.ob('C35-D1', name, what, 'inside a loop driven by the returned count', bool(used), site=loc(t['span']))
+                # a retry loop: the returned count must advance the position in the SAME buffer (fill loop: buf[n..] with n += count) or bound what is
+                # consumed afterwards (buf[..count]).  A loop that merely tests the count against 0 and then uses the whole buffer is a short-read bug.
+                accs = set()
+                for b in fn.B:
+                    for dst, rv in b['s']:
+                        if rv['k'] == 'bin' and rv['op'] in ('Add', 'AddWithOverflow', 'AddUnchecked'):
+                            for o in (rv['a'], rv['b']):
+                                if 'l' in o and any(x == ('call', bi) or (x[0] == 'field' and x[1] == ('call', bi)) for x in fn.origins(o)):
+                                    other = rv['b'] if o is rv['a'] else rv['a']
+                                    if 'l' in other:
+                                        accs.add(fn.name_of(other['l']))
+                buf = T.op_term(fn, t['args'][1]) if len(t['args']) > 1 else ''
+                fill = any(a and re.search(r'Range(From)?\(%s[,)]' % re.escape(a), buf) for a in accs)
+                cnt_names = set()
+                d0 = t['dest']
+                bound = False
+                for b2, t2 in fn.calls():
+                    tt = T.call_term(fn, b2)
+                    if re.search(r'Index(Mut)?::index(_mut)?$', t2['fd']) and re.search(r'RangeTo\(|Range\(0,', tt) and any(x == ('call', bi) or (x[0] == 'field' and x[1] == ('call', bi)) for a2 in t2['args'][1:] for x in fn.origins(a2)):
+                        bound = True
+                ctx.ob('C35-D1', name, what, 'inside a retry loop whose position in the buffer advances by the returned count (or the count bounds what is consumed)', fill or bound,
+                       detail='buffer %s; accumulators %s' % (buf[:80], sorted(x for x in accs if x)), site=loc(t['span']))
                 continue
             recv = t['f'].split(' as ')[0].lstrip('<')
             if NOSHORT.search(recv):
